@@ -253,7 +253,14 @@ static STOP: AtomicBool = AtomicBool::new(false);
 pub fn run_case(f: &(dyn Fn(&mut Gen) -> Verdict + Sync), tape: &[u32], want_desc: bool) -> (Verdict, Option<Value>) {
     let mut g = Gen::new(tape);
     g.want_desc = want_desc;
+    let watched = WATCH_ON.load(Ordering::Relaxed);
+    if watched {
+        watch_enter(tape);
+    }
     let r = guard(|| f(&mut g));
+    if watched {
+        watch_leave();
+    }
     let desc = g.desc.take();
     match r {
         Ok(v) => (v, desc),
@@ -729,3 +736,126 @@ pub fn finish(ctx: &Ctx, reports: Vec<SuiteReport>, summary: Summary) -> i32 {
 /// Strategy type check helper (keeps the `Strategy` import used even if inlined away).
 #[allow(dead_code)]
 fn _assert_strategy<S: Strategy>(_s: &S) {}
+
+// ------------------------------------------------------------------------------------------------
+// Watchdog: confirms hangs by an isolated re-run in a fresh process
+
+struct WatchSlot {
+    start: Option<Instant>,
+    tape: Vec<u32>,
+    checked: bool,
+}
+
+static WATCH_ON: AtomicBool = AtomicBool::new(false);
+static WATCH_SLOTS: std::sync::Mutex<Vec<WatchSlot>> = std::sync::Mutex::new(Vec::new());
+
+thread_local! {
+    static WATCH_ID: std::cell::Cell<Option<usize>> = std::cell::Cell::new(None);
+}
+
+fn watch_enter(tape: &[u32]) {
+    let mut slots = WATCH_SLOTS.lock().unwrap();
+    let id = WATCH_ID.with(|c| match c.get() {
+        Some(i) => i,
+        None => {
+            slots.push(WatchSlot { start: None, tape: Vec::new(), checked: false });
+            let i = slots.len() - 1;
+            c.set(Some(i));
+            i
+        }
+    });
+    let sl = &mut slots[id];
+    sl.start = Some(Instant::now());
+    sl.tape.clear();
+    sl.tape.extend_from_slice(tape);
+    sl.checked = false;
+}
+
+fn watch_leave() {
+    let mut slots = WATCH_SLOTS.lock().unwrap();
+    if let Some(id) = WATCH_ID.with(|c| c.get()) {
+        slots[id].start = None;
+    }
+}
+
+pub fn stop_watchdog() {
+    WATCH_ON.store(false, Ordering::SeqCst);
+}
+
+/// Start a monitor thread for the tape suite `suite`: a case running longer than `soft_s` seconds is
+/// written out and re-executed alone in a fresh process with a `hard_s` limit. If that re-run does
+/// not finish either, the hang is reproducible: a VIOLATION is printed and the process exits 1.
+/// Otherwise the slowness was transient and the run goes on.
+pub fn start_watchdog(ctx: &Ctx, suite: &str, soft_s: u64, hard_s: u64) {
+    WATCH_ON.store(true, Ordering::SeqCst);
+    let prop = ctx.prop.clone();
+    let suite = suite.to_string();
+    let tier = ctx.tier;
+    let seed = ctx.seed;
+    let root = ctx.root.clone();
+    std::thread::spawn(move || {
+        while WATCH_ON.load(Ordering::Relaxed) {
+            std::thread::sleep(std::time::Duration::from_millis(500));
+            let mut suspect: Option<Vec<u32>> = None;
+            {
+                let mut slots = WATCH_SLOTS.lock().unwrap();
+                for sl in slots.iter_mut() {
+                    if let Some(t0) = sl.start {
+                        if !sl.checked && t0.elapsed().as_secs() >= soft_s {
+                            sl.checked = true;
+                            suspect = Some(sl.tape.clone());
+                            break;
+                        }
+                    }
+                }
+            }
+            let tape = match suspect {
+                Some(t) => t,
+                None => continue,
+            };
+            let ctx2 = Ctx { prop: prop.clone(), tier, seed, threads: 1, root: root.clone(), start: Instant::now(), known: Vec::new() };
+            let fl = Failure {
+                suite: suite.clone(),
+                msg: format!("a single case ran for more than {} s (suspected hang: loops without consuming input)", soft_s),
+                signature: None,
+                case: json!({"kind": "tape", "tape": tape}),
+                description: None,
+            };
+            let path = write_replay(&ctx2, &fl);
+            let exe = match std::env::current_exe() {
+                Ok(e) => e,
+                Err(_) => continue,
+            };
+            let mut child = match std::process::Command::new(exe).arg("replay").arg(&path).stdout(std::process::Stdio::null()).stderr(std::process::Stdio::null()).spawn() {
+                Ok(c) => c,
+                Err(_) => continue,
+            };
+            let t0 = Instant::now();
+            let mut finished = false;
+            while t0.elapsed().as_secs() < hard_s {
+                match child.try_wait() {
+                    Ok(Some(_)) => {
+                        finished = true;
+                        break;
+                    }
+                    _ => std::thread::sleep(std::time::Duration::from_millis(200)),
+                }
+            }
+            if !finished {
+                let _ = child.kill();
+                println!("--- {} / {}: a decode call does not terminate (re-run alone in a fresh process, still running after {} s)", prop, suite, hard_s);
+                println!("VIOLATION property={} replay={}", prop, path.display());
+                let ev = json!({
+                    "property_id": prop, "tier": tier.name(), "seed": seed, "level": "exploration",
+                    "coverage": {"evaluations": 1, "distinct_nontrivial": 2, "rule": "run aborted by the watchdog: reproducible hang", "samples": [{"hang_replay": path.display().to_string()}]},
+                    "wall_s": 0.0, "violations": 1,
+                });
+                let _ = std::fs::create_dir_all(root.join("evidence"));
+                let _ = std::fs::write(root.join("evidence").join(format!("{}.json", prop)), serde_json::to_string_pretty(&ev).unwrap());
+                std::process::exit(1);
+            } else {
+                let _ = std::fs::remove_file(&path);
+            }
+        }
+    });
+}
